@@ -96,10 +96,15 @@ RESULT_TTL_LIMIT = [("fifo", "thread", None), ("lfu", "thread", None), ("lru", "
 RESULT_MEM = [("fifo", "async", 3), ("lru", "global", 3), ("lfu", "async", 4), ("random", "global", 4)]
 
 
+# async TLRU with an entry limit, NO ttl, a frequency_weight far from 1 — written before `policy` for two of them (C08 at the
+# macro level: the weight on the attribute governs which entry goes, wherever in the list it stands)
+ASYNC_TLRU_FW = [(True, 5), (True, 1), (False, 5), (False, 1)]
+
+
 def gen(seed, n):
     """the first 48 functions are random (seeded); then the 4 fixed ones (plain, F7 witnesses); then the systematic
     block: flavour x policy with limit + invalidate_on, and flavour x policy with max_memory + cache_if"""
-    base_n = n - len(SYSTEMATIC) - len(EXTRA) - len(PLAIN) - len(PLAIN_RESULT) - len(TTL_LIMIT) - len(RESULT_TTL_LIMIT) - len(RESULT_MEM)
+    base_n = n - len(SYSTEMATIC) - len(EXTRA) - len(PLAIN) - len(PLAIN_RESULT) - len(TTL_LIMIT) - len(RESULT_TTL_LIMIT) - len(RESULT_MEM) - len(ASYNC_TLRU_FW)
     fns = gen_random(seed, base_n)
     rng = random.Random(seed * 7 + 3)
     for k, sy in enumerate(SYSTEMATIC):
@@ -146,6 +151,11 @@ def gen(seed, n):
         fns.append(dict(i=i, real_result=False, is_async=(fl == "async"), policy=pol, limit=None, maxmem=MAXMEM[2], ttl=None, fw=None,
                         scope=None, sig=SIGS[1 + k % 2], ret=RETS[r], name=None, tags=[], events=[], deps=[],
                         cache_if=False, inv_on=False, thread_scope=False))
+    for k, (first, fwi) in enumerate(ASYNC_TLRU_FW):
+        i = base_n + len(SYSTEMATIC) + len(EXTRA) + len(PLAIN) + len(PLAIN_RESULT) + len(TTL_LIMIT) + len(RESULT_TTL_LIMIT) + len(RESULT_MEM) + k
+        fns.append(dict(i=i, real_result=False, is_async=True, policy="tlru", limit=2 + k % 2, maxmem=None, ttl=None, fw=FWS[fwi],
+                        scope=None, sig=SIGS[1 + k % 2], ret=RETS[0], name=None, tags=[], events=[], deps=[],
+                        cache_if=False, inv_on=False, thread_scope=False, fw_first=first))
     return fns
 
 
@@ -211,6 +221,9 @@ def attr_list(f):
     if f["inv_on"]: a.append(f"invalidate_on = io_{f['i']}")
     r = random.Random(f["i"] * 7 + 1)
     r.shuffle(a)
+    if f.get("fw_first"):
+        # `frequency_weight` written BEFORE `policy` (an order-sensitive attribute parser would lose it)
+        a.sort(key=lambda x: 0 if x.startswith("frequency_weight") else (1 if x.startswith("limit") else 2))
     return ", ".join(a)
 
 
